@@ -42,7 +42,7 @@ theorem C13_flags_are_distinct_bits :
 
 /-- the tree under test contains the repairs the full-strength theorems are about: processElif looks at
     the state first (F17), lineIsTrue does not push (F17), && / || short-circuit (F18, C14's),
-    __VA_ARGS__ keeps its commas (F61).  On a tree without them this obligation fails and the
+    __VA_ARGS__ keeps its commas (F61), `defined X` without parentheses works (F64).  On a tree without them this obligation fails and the
     canonical replays of the corpus give the concrete failing inputs. -/
 theorem C13_tree_is_repaired : Cfg.current = Cfg.repaired := by
   decide
@@ -160,21 +160,21 @@ differential run, not proved.  -/
 
 /-- if the expansion of a line finishes with `n` units of fuel it finishes with the same result for every
     larger amount: "terminates" and "the result" are properties of the table and the line alone -/
-theorem C13_expand_fuel_monotone (vc : Bool) (s : PP) (toks : List Tok) (n k : Nat) (r : Res (List Tok × PP))
+theorem C13_expand_fuel_monotone (vc : XCfg) (s : PP) (toks : List Tok) (n k : Nat) (r : Res (List Tok × PP))
     (h : expandLine vc n s toks = r) (hne : r ≠ .outOfFuel) : expandLine vc (n + k) s toks = r :=
   expandLine_mono_le vc s toks r hne n k h
 
 /-- FULL statement (termination): for every macro table and every source line some amount of fuel suffices -/
 def C13_expand_terminates_full : Prop :=
-  ∀ (vc : Bool) (tbl : List Macro) (toks : List Tok), ∃ n, expandLine vc n { table := tbl } toks ≠ .outOfFuel
+  ∀ (vc : XCfg) (tbl : List Macro) (toks : List Tok), ∃ n, expandLine vc n { table := tbl } toks ≠ .outOfFuel
 
 /-- it is false: with `#define f(x) g(x)` / `#define g(x) f(x)` the line `f(1)` is expanded for ever
     (the `)` that ends f's expansion is consumed as the end of g's argument list, which re-enables f
     before g's expansion is re-scanned).  Finding F63; the harness observes the hang on the real code. -/
 theorem C13_expand_terminates_full_fails : ¬ C13_expand_terminates_full := by
   intro h
-  obtain ⟨n, hn⟩ := h true tblFG [tId "f", tOp "(", tNum "1", tOp ")"]
-  exact hn (expand_fg_diverges true n)
+  obtain ⟨n, hn⟩ := h ⟨true, true⟩ tblFG [tId "f", tOp "(", tNum "1", tOp ")"]
+  exact hn (expand_fg_diverges ⟨true, true⟩ n)
 
 /-- PARTIAL (the strongest termination statement proved): on every table of OBJECT-LIKE macros — whatever
     they refer to: chains, cycles, self-reference, empty bodies — every line is expanded with finitely much
@@ -182,7 +182,7 @@ theorem C13_expand_terminates_full_fails : ¬ C13_expand_terminates_full := by
     macros enabled when they will be processed; it drops by one per expansion.)  Function-like macros are
     excluded by the counter-example above; `defined` is excluded because that identifier is a built-in
     function-like macro. -/
-theorem C13_expand_terminates_partial (vc : Bool) (tbl : List Macro) (toks : List Tok) (hobj : ObjTable tbl)
+theorem C13_expand_terminates_partial (vc : XCfg) (tbl : List Macro) (toks : List Tok) (hobj : ObjTable tbl)
     (hnd : NoDefined vc tbl) (ht : ∀ t ∈ toks, t.text ≠ "defined") :
     ∃ n, expandLine vc n { table := tbl } toks ≠ .outOfFuel := by
   obtain ⟨n, r, h⟩ := expandLine_obj_terminates vc tbl toks hobj hnd ht
@@ -190,7 +190,7 @@ theorem C13_expand_terminates_partial (vc : Bool) (tbl : List Macro) (toks : Lis
 
 example : ObjTable [⟨"A", false, 0, false, [.raw (tId "B"), .raw (tId "A")], false⟩,
                     ⟨"B", false, 0, false, [.raw (tId "A")], false⟩] ∧
-          NoDefined true [⟨"A", false, 0, false, [.raw (tId "B"), .raw (tId "A")], false⟩,
+          NoDefined ⟨true, true⟩ [⟨"A", false, 0, false, [.raw (tId "B"), .raw (tId "A")], false⟩,
                           ⟨"B", false, 0, false, [.raw (tId "A")], false⟩] := by
   constructor
   · intro m hm; simp at hm; rcases hm with rfl | rfl <;> simp
@@ -200,7 +200,7 @@ example : ObjTable [⟨"A", false, 0, false, [.raw (tId "B"), .raw (tId "A")], f
 /-- FULL statement (agreement): whenever both algorithms finish they produce the same tokens -/
 def C13_expand_agrees_full : Prop :=
   ∀ (tbl : List Macro) (toks : List Tok) (n : Nat) (o : List Tok) (s' : PP) (r : List Tok),
-    expandLine true n { table := tbl } toks = .ok (o, s') → refExpand n tbl toks = .ok r →
+    expandLine ⟨true, true⟩ n { table := tbl } toks = .ok (o, s') → refExpand n tbl toks = .ok r →
     o.filter (fun t => !t.isNl) = r
 
 /-- it is false: `#define A A B`, `#define f(x) x`, `f(A)`: OCCA gives `A B B`, the standard `A B`
@@ -224,7 +224,7 @@ theorem C13_expand_agrees_full_fails : ¬ C13_expand_agrees_full := by
     hide-set expansion of the same tokens (the newline token included, it is an ordinary token for the
     reference).  Simulation invariant: a macro is in the hide set of a pending token iff it will be disabled
     when OCCA processes that token.  Function-like macros are excluded by the two counter-examples above. -/
-theorem C13_expand_agrees_partial (vc : Bool) (tbl : List Macro) (toks : List Tok) (hobj : ObjTable tbl)
+theorem C13_expand_agrees_partial (vc : XCfg) (tbl : List Macro) (toks : List Tok) (hobj : ObjTable tbl)
     (hnd : NoDefined vc tbl) (ht : ∀ t ∈ toks, t.text ≠ "defined")
     (n n' : Nat) (o : List Tok) (s' : PP) (r : List HTok)
     (h1 : expandLine vc n { table := tbl } toks = .ok (o, s'))
